@@ -264,3 +264,98 @@ def _flows_to(f, src_local, dst_local):
         if si is not None and node["rv"]["r"] == "use" and op_local(node["rv"]["a"][0]) == src_local:
             return True
     return False
+
+
+def rule_uaf_guard(ctx, cfg, F):
+    """UAF-GUARD: a pointer taken out of an owning guard value is not dereferenced after the guard has been dropped."""
+    from rules import fd as _fd
+    R = ctx.rule("UAF-GUARD", "a raw pointer read out of a value whose Drop frees it (the control-message buffer of UnixCmsg, a mapping, ...) is not dereferenced on any path "
+                 "after that value has been dropped: no load, store, slice construction or copy through such a pointer is reachable from the drop of its owner without passing a fresh creation of the owner")
+    Fn_ = F.nodrop() if hasattr(F, "nodrop") else F
+    with _fd.domain("mem"):
+        own_direct, _own_cont = _fd.owning_fields(Fn_)
+    owned = {}
+    for (adt, fld) in own_direct:
+        owned.setdefault(adt, set()).add(fld)
+    n = 0
+    for f in sorted(Fn_.fns.values(), key=lambda x: x.path):
+        if not f.path.startswith("platform::unix") or f.impl_trait == "std::ops::Drop":
+            continue
+        guards = {}
+        for b in f.live_blocks():
+            t = f.term(b)
+            if t["t"] == "drop" and not f.is_cleanup(b) and not t["pl"].get("p") and t.get("adt") in owned:
+                guards.setdefault(t["pl"]["l"], []).append(b)
+        if not guards:
+            continue
+        tr = Tracer(f)
+        # pointer uses: derefs in statements, and pointer arguments of the usual raw-memory functions
+        uses = []
+        for b in sorted(f.live_blocks()):
+            if f.is_cleanup(b):
+                continue
+            for si, st in enumerate(f.stmts(b)):
+                if st["s"] != "assign":
+                    continue
+                pls = []
+                if "*" in (st["lhs"].get("p") or []):
+                    pls.append(st["lhs"])
+                for o in st["rv"].get("a", []):
+                    pl = op_place(o)
+                    if pl is not None and "*" in (pl.get("p") or []):
+                        pls.append(pl)
+                if st["rv"].get("pl") and "*" in (st["rv"]["pl"].get("p") or []) and st["rv"]["r"] not in ("ref", "raw"):
+                    pls.append(st["rv"]["pl"])
+                for pl in pls:
+                    if f.local_ty(pl["l"]).startswith("*"):
+                        uses.append((b, si, pl["l"]))
+            t = f.term(b)
+            if t["t"] == "call" and strip_generics(callee_name(t)) in RAW_USERS:
+                for a in t["args"]:
+                    l = op_local(a)
+                    if l is not None and f.local_ty(l).startswith("*"):
+                        uses.append((b, None, l))
+        for G, drops in sorted(guards.items()):
+            adt = f.term(drops[0])["adt"]
+            groots = {(r.kind, r.id, r.block) for r in tr.roots(G)}
+            creations = {r[2] for r in groots if r[0] == "call" and r[2] is not None}
+            n += 1
+            bad = None
+            for (ub, usi, pl) in uses:
+                proots = _ptr_roots(f, tr, pl)
+                derived = [r for r in proots if (r.kind, r.id, r.block) in groots and set(r.field_names()) & owned[adt]] or \
+                          [r for r in proots if r.kind == "local" and r.id == G and set(r.field_names()) & owned[adt]]
+                if not derived:
+                    continue
+                for d in drops:
+                    to = f.term(d)["to"]
+                    if to >= 0 and ub in f.reachable(to, avoid=creations):
+                        bad = (d, ub, usi)
+                        break
+                if bad:
+                    break
+            if bad:
+                d, ub, usi = bad
+                R.violate("%s:use-after-drop:%s" % (f.path, adt.split("::")[-1]), "a pointer taken from a %s is dereferenced (%s) on a path after that value was dropped (%s), i.e. after its Drop freed the memory" % (
+                    adt, f.loc(ub, usi), f.loc(d)), f.path, f.loc(ub, usi), config=cfg)
+            else:
+                R.ok("%s: no pointer derived from %s `%s` is used after its drop (%d drop sites)" % (f.path, adt.split("::")[-1], f.lname(G), len(drops)), f.loc(drops[0]), cfg)
+    R.count("guards[%s]" % cfg, n)
+
+
+def _ptr_roots(f, tr, local, depth=0):
+    """provenance of a raw pointer, looking through calls that map a pointer to a pointer into the same allocation (CMSG_DATA and the like)"""
+    out = set()
+    for r in tr.roots(local):
+        if r.kind == "call" and r.block is not None and depth < 4:
+            t = f.term(r.block)
+            if t["t"] == "call" and t["args"] and f.local_ty(t["dest"]["l"]).startswith("*") and op_local(t["args"][0]) is not None and f.local_ty(op_local(t["args"][0])).startswith("*") \
+                    and not strip_generics(callee_name(t)).startswith("libc::m"):
+                out |= _ptr_roots(f, tr, op_local(t["args"][0]), depth + 1)
+                continue
+        out.add(r)
+    return out
+
+
+RAW_USERS = ("std::slice::from_raw_parts", "std::slice::from_raw_parts_mut", "std::ptr::copy_nonoverlapping", "std::ptr::copy", "std::ptr::read", "std::ptr::write", "std::ptr::write_bytes",
+             "std::ptr::const_ptr::read", "std::ptr::mut_ptr::read", "std::ptr::mut_ptr::write", "std::ptr::read_unaligned", "std::ptr::write_unaligned")
